@@ -22,7 +22,7 @@ type FuncReport struct {
 }
 
 func (e *Engine) newVC(fn *ssa.Function) *VC {
-	return &VC{eng: e, root: fn, used: map[string]bool{}, counts: map[string]int{}, ifaceFacts: map[string]bool{}, siteHits: map[*Site]int{}, declared: map[string]bool{}}
+	return &VC{eng: e, root: fn, used: map[string]bool{}, counts: map[string]int{}, ifaceFacts: map[string]bool{}, siteHits: map[*Site]int{}, declared: map[string]bool{"strbyte": true, "strlen": true, "typ": true}}
 }
 
 func (vc *VC) prelude() []string {
